@@ -64,6 +64,7 @@ PROPS = {
     },
     'C13': {
         'modules': ['contracts.C13_multipart'],
+        'deps': [{'module': 'contracts.C14_readers', 'prop': 'C14', 'filters': ['peek', 'read_until', 'pipe_until', 'delimit', '.read[', '_read[', 'exhaust']}],
         'level': 'proof',
         'level_text': 'Multipart limits exactly at their thresholds (buffered part size: raises iff content > max, on every call; part count: loop invariant '
                       'remaining == max - parts yielded, 0 = unlimited; header block read with the configured cap), error mapping (only MultipartParseError leaves '
@@ -78,6 +79,7 @@ PROPS = {
     },
     'C09': {
         'modules': ['contracts.C09_request_headers'],
+        'deps': [{'module': 'contracts.C10_uri', 'prop': 'C10', 'filters': ['parse_host']}],
         'level': 'proof',
         'level_text': 'For every typed request-header accessor (WSGI and ASGI): the exception-escape set is 400-class only, the value specs that are '
                       'arithmetic/structural (content_length, range forms = the C16 precondition, range_unit, host/port/netloc with default ports, URL '
@@ -100,6 +102,7 @@ PROPS = {
     },
     'C15': {
         'modules': ['contracts.C15_headers'],
+        'deps': [{'module': 'contracts.C10_uri', 'prop': 'C10', 'filters': ['encoder[', 'constructed_classes', 'char_encoder', 'escape_shapes']}],
         'level': 'proof',
         'level_text': 'Case-insensitive map view of every plain-header operation with frame (whole-map equality over a symbolic String -> Option String map and '
                       'symbolic names), Set-Cookie guard invariant, typed header properties through the real factory, emission lists for WSGI and ASGI, cookie '
@@ -186,6 +189,7 @@ PROPS = {
     },
     'C12': {
         'modules': ['contracts.C12_media'],
+        'deps': [{'module': 'contracts.C11_negotiation', 'prop': 'C11', 'filters': ['_resolve', 'resolver', 'Handlers.']}],
         'level': 'proof',
         'level_text': 'Parse-at-most-once automaton of Request.get_media / media (WSGI and ASGI) as a class invariant over (_media, _media_error) with a ghost '
                       'event trace of handler / registry / stream calls: any history of calls holds by induction; JSON and URL-encoded handler error mapping '
@@ -222,6 +226,7 @@ PROPS = {
     },
     'C16': {
         'modules': ['contracts.C16_static'],
+        'deps': [{'module': 'contracts.C09_request_headers', 'prop': 'C09', 'filters': ['Request.range', 'Request.range_unit', 'if_modified_since']}],
         'level': 'proof',
         'level_text': 'Every obligation generated from the current source of _set_range and _BoundedFile.read is discharged for all sizes, '
                       'ranges, cursor positions and read sizes (unbounded integers); range arithmetic, 416 condition, slice bounds, budget.',
